@@ -742,6 +742,12 @@ static Boolean DecodeAdr(
             Mask, pArg, eModAbs8, eModAbs16, eModAbs24, 0xb, 0xc, 0xb, IsCode, pAdrVals);
 
 chk:
+    /* no addressing mode recognized: the reason has been reported above (expression
+       out of range, unknown register, unusable size suffix) - the caller must not
+       build an instruction out of the empty address values */
+    if (pAdrVals->Mode == eModNone) {
+        return False;
+    }
     return ChkAdrValsMode(pAdrVals, Mask, ErrNum_InvAddrMode, pArg);
 }
 
